@@ -42,9 +42,10 @@ func (r *recorder) PushMessageByIds(ns *service.NodeService, serverId string, id
 
 // recording IClientSession for the front-end side
 type recSession struct {
-	id     uint32
-	log    *[]int64
-	closed bool
+	id       uint32
+	log      *[]int64
+	closed   bool
+	failNext bool // writes of the current push fail (the real session: encoder refused the payload, send recovered a panic); the connection stays open
 }
 
 func (s *recSession) Reserve()        {}
@@ -55,6 +56,9 @@ func (s *recSession) IsClosed() bool  { return s.closed }
 func (s *recSession) Push(route string, v interface{}) error {
 	if s.closed { // what the real ClientSession.Push answers once its status is Closed
 		return errors.New("closed")
+	}
+	if s.failNext { // cleared by the driver at the end of the push: every write of THIS push fails
+		return errors.New("send error")
 	}
 	*s.log = append(*s.log, int64(s.id))
 	return nil
@@ -160,6 +164,21 @@ func Exec(ops []hx.T) (obs []any, nontrivial bool) {
 				l = append(l, hx.Pair{A: frontNum[p.front], B: hx.Norm(p.ids)})
 			}
 			obs = append(obs, hx.C("BPush", l))
+		case "OFrontSeq":
+			live := o.Ints(0)
+			var pushes [][2][]int64
+			for _, p := range o.List(1) {
+				pp := p.(hx.Pair)
+				pushes = append(pushes, [2][]int64{hx.Ints(pp.A), hx.Ints(pp.B)})
+			}
+			ds := []any{}
+			for _, d := range frontSeq(live, pushes) {
+				ds = append(ds, hx.Norm(d))
+			}
+			obs = append(obs, hx.C("BDeliverSeq", ds))
+			if len(live) > 0 && len(pushes) > 0 {
+				nontrivial = true
+			}
 		case "OFront":
 			live, closing, ids := o.Ints(0), o.Ints(1), o.Ints(2)
 			obs = append(obs, hx.C("BDeliver", frontDeliver(live, closing, ids)))
@@ -244,6 +263,86 @@ func frontDeliver(live, closing, ids []int64) []int64 {
 	out := make([]int64, len(log))
 	for i, id := range log {
 		out[i] = idToTok[id]
+	}
+	return out
+}
+
+// frontSeq: ONE front-end service (real ClientSessions behind the real sys.pushmsg entry) with the
+// tokens of `live` registered and open; the pushes are delivered one after the other; before push k
+// the connections named in its `failing` list are told to fail their next write once.
+func frontSeq(live []int64, pushes [][2][]int64) [][]int64 {
+	cs := impls.NewClientSessions("front-seq")
+	var log []int64
+	max := int64(0)
+	isLive := map[int64]bool{}
+	for _, v := range live {
+		isLive[v] = true
+		if v > max {
+			max = v
+		}
+	}
+	for _, p := range pushes {
+		for _, v := range p[1] {
+			if v > max && v < 1000 {
+				max = v
+			}
+		}
+	}
+	tokToID := map[int64]uint32{}
+	idToTok := map[int64]int64{}
+	byTok := map[int64]*recSession{}
+	var sessions []*recSession
+	for t := int64(1); t <= max; t++ {
+		s := &recSession{log: &log}
+		cs.AddSession(s)
+		sessions = append(sessions, s)
+		tokToID[t] = s.id
+		idToTok[int64(s.id)] = t
+		byTok[t] = s
+	}
+	for t, s := range sessions {
+		if !isLive[int64(t+1)] {
+			cs.RemoveSession(s)
+			delete(byTok, int64(t+1))
+		}
+	}
+	g := &gate{NodeService: service.NewService()}
+	g.AddComponent("sessions", impls.NewSessionsComponent(cs))
+	sysOnce.Do(func() { registry.Registry.Build() })
+	col := registry.Registry.GetCollection(service.SystemAPI)
+	var out [][]int64
+	for _, p := range pushes {
+		for _, t := range p[1] {
+			if s := byTok[t]; s != nil {
+				s.failNext = true
+			}
+		}
+		u := make([]uint32, len(p[0]))
+		for i, v := range p[0] {
+			if id, ok := tokToID[v]; ok {
+				u[i] = id
+			} else {
+				u[i] = uint32(1000000 + v)
+			}
+		}
+		log = log[:0]
+		rc := as.NewRemoteContext()
+		rc.Update(&actorCtx{a: g})
+		answered := false
+		col.Call(rc, "sys.pushmsg", &msgs.PushMsg{Ids: u, Route: "r", Data: []byte("x")}, func(err error, ret interface{}) {
+			answered = err == nil
+		})
+		d := make([]int64, 0, len(log))
+		if !answered {
+			d = append(d, -1)
+		}
+		for _, id := range log {
+			d = append(d, idToTok[id])
+		}
+		out = append(out, d)
+		for _, s := range byTok { // the failure is over with this push
+			s.failNext = false
+		}
 	}
 	return out
 }
@@ -358,6 +457,25 @@ func gen(cfg *hx.Config, maxLen int) ([]hx.T, []string) {
 			for j := r.Intn(8); j > 0; j-- {
 				ids = append(ids, 1+r.Int63n(int64(nl)+4))
 			}
+			if r.Intn(3) == 0 { // a sequence of pushes on one front-end, some writes failing once
+				var ps []any
+				for k := 2 + r.Intn(4); k > 0; k-- {
+					ids := []int64{}
+					for j := r.Intn(7); j > 0; j-- {
+						ids = append(ids, 1+r.Int63n(int64(nl)+4))
+					}
+					failing := []int64{}
+					for _, v := range ids {
+						if r.Intn(4) == 0 {
+							failing = append(failing, v)
+						}
+					}
+					ps = append(ps, hx.Pair{A: hx.Norm(ids), B: hx.Norm(failing)})
+				}
+				tags["front-seq"] = true
+				ops = append(ops, hx.C("OFrontSeq", live, ps))
+				continue
+			}
 			tags["front"] = true
 			closing := []int64{}
 			if r.Intn(2) == 0 {
@@ -424,6 +542,23 @@ func Run(cfg *hx.Config) error {
 	}
 	for L := 0; L <= depth; L++ {
 		enumerate(L, func(ops []hx.T) { emit(fmt.Sprintf("exhaustive-%d", L), ops, nil) })
+	}
+	// how far the tail has to move: a member at position p of n leaves with n-p members behind it
+	// (1, 2, 127, 128, 129, 130, 200, ... behind), the broadcast must still list the rest in join order
+	for _, n := range []int{130, 131, 132, 200, 258, 259, 300, 400} {
+		seen := map[int]bool{}
+		for _, p := range []int{2, 3, n / 3, n - 130, n - 129, n - 128, n - 127, n - 2, n - 1} {
+			if p < 2 || p >= n || seen[p] {
+				continue
+			}
+			seen[p] = true
+			var ops []hx.T
+			for i := 1; i <= n; i++ {
+				ops = append(ops, hx.C("OAdd", 1, 1, i))
+			}
+			ops = append(ops, hx.C("OLeave", 1, 1, p), hx.C("OPush", 1), hx.C("OLeave", 1, 1, p+1), hx.C("OAdd", 1, 1, p), hx.C("OPush", 1))
+			emit("shift-distance", ops, []string{"shift-distance", fmt.Sprintf("behind-%d", n-p)})
+		}
 	}
 	// capacity boundaries of the id slice (make(.., 0, 128), doubling): n joins to one group,
 	// then removals at the first / middle / last position, pushes in between
